@@ -324,6 +324,31 @@ def run(ctx: Ctx) -> None:
     ctx.ob("C02.R5", sm, "packet = (id of type(m), m serialised) for each message in order", okc, detail)
     wpc = [c for c in own_nodes(sm.node) if isinstance(c, ast.Call) and wps & set(res.callees(sm, c).funcs)]
     ctx.ob("C02.R5", sm, "exactly those packets are written", len(wpc) == 1 and wpc[0].args and norm(wpc[0].args[0]) == pkt_var, f"writes {[norm(a) for c in wpc for a in c.args[:1]]}")
+    # the batch is walked more than once (packets, debug log): it must then be declared as something that can be - a
+    # one-shot iterable would be used up by the first walk and nothing (or only a log line) would be left for the wire
+    smp = [a for a in sm.node.args.args if a.arg != "self"]
+    if smp:
+        walks = [x for x in own_nodes(sm.node) if (isinstance(x, (ast.For, ast.comprehension)) and isinstance(x.iter, ast.Name) and x.iter.id == smp[0].arg)]
+        ann = norm(smp[0].annotation) if smp[0].annotation is not None else ""
+        reiterable = ann.split("[")[0].split(".")[-1] in ("tuple", "list", "Sequence", "Tuple", "List", "Collection")
+        ctx.ob("C02.R5", sm, "the batch is walked once, or is declared re-iterable (tuple / list / Sequence)", len(walks) <= 1 or reiterable, f"{len(walks)} walks over `{smp[0].arg}: {ann}`")
+        # ... and the packets are built by the first of those walks (a log loop in front of it must not be what consumes the batch)
+    # the cipher-advancing path is entered once per batch: outside the Noise helper exactly one call site (the write in
+    # send_messages) reaches EncryptCipher.encrypt - a second one (sizing / previewing the frames for a log line) burns nonces
+    enc_fn = ctx.repo.cls("EncryptCipher").methods["encrypt"]
+    reach_enc = {enc_fn.key}
+    changed = True
+    allf = ctx.repo.all_funcs()
+    while changed:
+        changed = False
+        for f_ in allf:
+            if f_.key in reach_enc:
+                continue
+            if any(isinstance(c, ast.Call) and any(x.key in reach_enc for x in res.callees(f_, c).funcs) for c in own_nodes(f_.node)):
+                reach_enc.add(f_.key)
+                changed = True
+    outside = [(f_.qualname, norm(c)[:50]) for f_ in allf if not f_.module.name.startswith("_frame_helper") for c in own_nodes(f_.node) if isinstance(c, ast.Call) and any(x.key in reach_enc and x.module.name.startswith("_frame_helper") for x in res.callees(f_, c).funcs)]
+    ctx.ob("C02.R4", sm, "outside the frame helper exactly one call site reaches the encrypting path", len(outside) == 1 and outside[0][0] == sm.qualname, f"{outside}")
     one = ctx.repo.func("connection", "APIConnection.send_message")
     oc = [c for c in own_nodes(one.node) if isinstance(c, ast.Call) and sm in res.callees(one, c).funcs]
     mp1 = [p for p in one.param_names() if p != "self"][0]
